@@ -469,6 +469,8 @@ class IntSeqStream(Stream):
         return self.init_class(c, ref) or "set:sane"
 
     def q_class(self, c, ref, p, api, exp):
+        # (the classes excl-seq:None-lookup and nprev:at-excluded-start were fixed in /repo by
+        #  d9f1b31; they stay here so that a regression gets exactly that, no longer open, signature)
         k = self.init_class(c, ref)
         if k:
             return k
@@ -730,8 +732,10 @@ class IntSeqStream(Stream):
             mk({"name": "Rn/Pk/E", "n": 5, "k": 3, "E": A(20)}, 1, 10),     # R5/P3/20: stop 9 off-sequence
             mk({"name": "R1/S", "n": 1, "S": A(0)}, 1, 10),                 # R1/0 valid at 0 < initial
             mk({"name": "Pk", "k": 3}, 1, 10, q_=list(range(-6, 18))),      # far-below / far-above queries
-            mk({"name": "Pk", "k": 1}, 1, 10, xs=[{"name": "Pk", "k": 2}]),  # P1!P2: prev TypeError, nprev RecursionError
-            mk({"name": "Pk", "k": 1}, 1, None, xs=[{"name": "Pk", "k": 2}]),  # get_stop_point TypeError
+            mk({"name": "Pk", "k": 1}, 1, 10, xs=[{"name": "Pk", "k": 2}]),  # P1!P2: regression for d9f1b31 (was prev TypeError, nprev RecursionError)
+            mk({"name": "Pk", "k": 1}, 1, None, xs=[{"name": "Pk", "k": 2}]),  # regression for d9f1b31 (was get_stop_point TypeError)
+            mk({"name": "Pk", "k": 2}, -1, 1, xp=[7, -1], q_=[-2, -1, 0, 1, 2]),      # P2!(7,-1): nprev(0) recursed for ever
+            mk({"name": "R1", "n": 1}, -1, None, xp=[2, 8], xs=[{"name": "Pk", "k": 4}]),  # one-off + stepped exclusion
             mk({"name": "R1", "n": 1}, 1, 10, xp=[1]),                      # R1!1: next(0)=1 excluded
             mk({"name": "S/Pk", "S": A(5), "k": 1}, 2, 2),                  # empty: start 5, stop 2
             mk({"name": "R1/S", "n": 1, "S": A(5)}, 1, 10),                 # prev on one-off
@@ -791,13 +795,12 @@ META = {
         "(progression from p_start by i_step within [p_start,p_stop] minus exclusion points and exclusion sequences); "
         "get_first_point, get_next_point (p >= start-step), get_next_point_on_sequence and get_start_point return the "
         "least member on the stated side or None iff none; get_prev_point, get_nearest_prev_point and get_stop_point the "
-        "greatest member when the stop point is on the grid and p <= stop+step; explicit fuel bounds; the only exception "
-        "a query can raise is the TypeError of a stepped exclusion sequence. "
+        "greatest member when the stop point is on the grid and p <= stop+step; explicit fuel bounds; no query raises. "
         "(B) for every recurrence form outside the constructor's defect classes (hypothesis sane_input) the constructor "
         "succeeds and the set of the state equals `denote` = the form's arithmetic progression clipped to [initial, final] "
         "minus exclusions, so all queries agree with `denote`. (C) Rn/START/END with n != 1 is rejected for all values. "
         "The full statements (all forms, all query points, never raising) are kept as Definitions and are REFUTED in Coq on "
-        "witnesses of 12 defect classes (known findings). Model tied to integer.py by differential runs of the constructor "
+        "witnesses of 10 open defect classes (known findings; 2 more were fixed by d9f1b31 and are regression cases). Model tied to integer.py by differential runs of the constructor "
         "and all 8 API methods on every query point (state p_start/p_stop/i_step compared too), plus a brute-force "
         "reference-set oracle on the implementation alone."),
     "level_note": (
